@@ -107,6 +107,13 @@ def oracle_c05(rec: I.Rec):
     pend = getattr(rec.learner, "pending_points", None)
     if pend is not None and len(pend) > 0:
         errs.append(("pending_left", f"learner.pending_points = {sorted(map(repr, pend))[:5]} after the runner stopped"))
+    # AsyncRunner with a coroutine function: at the moment the runner task is done no evaluation
+    # coroutine may still be executing (a Task whose cancellation was only REQUESTED is not cancelled yet)
+    if ctx.executing_at_done:
+        fid = min(ctx.executing_at_done)
+        errs.append(("outstanding_future", f"evaluation still outstanding after the runner stopped: the coroutine evaluating point "
+                                           f"{ctx.sub_point[fid]!r} (future {fid}) was still executing when the runner task finished "
+                                           f"(its cancellation was requested but had not completed; {len(ctx.executing_at_done)} such)"))
     # every evaluation the runner started is, once the runner has stopped, either consumed (its
     # result was taken by the runner) or cancelled.  A cancel() that was refused (the job is already
     # running) does not cancel anything: such an evaluation has to be waited for and consumed.
